@@ -9,6 +9,7 @@ CONSTANTS
 SPECIFICATION Spec
 INVARIANT TypeOK
 INVARIANT DumpTotal
+INVARIANT WidthTable
 INVARIANT DumpExplains
 INVARIANT RecordsRoundTrip
 INVARIANT SubFieldNames
